@@ -707,7 +707,9 @@ def main(argv_tier=None, replay_path=None):
             h = decode_hist(v[0]["trace"]["hist"])
             print("  %-45s %8d   shortest: %s" % (k, tally.rej_count[k], hist_str(h[:v[0]["verdict"]["step"]])))
 
+    from common import tlaps_prove
     cov = {
+        "tlaps_proof": tlaps_prove("PDict_proofs"),
         "states": g.distinct, "transitions": g.generated,
         "model_actions": acts,
         "model_clauses_checked": MODEL_CLAUSES,
